@@ -812,7 +812,7 @@ fn coq_aff(t: &[f64; 6], vary: bool) -> String {
 fn varies(g: &G, j: usize) -> bool {
     g.m.iter().any(|m| m.xf[j][..4] != g.m[0].xf[j][..4])
 }
-fn coq_font(src: &Src, k: usize) -> String {
+fn coq_font(src: &Src, k: usize, all_export: bool) -> String {
     let gl: Vec<String> = src
         .glyphs
         .iter()
@@ -821,7 +821,7 @@ fn coq_font(src: &Src, k: usize) -> String {
             let m = &g.m[k];
             let cs = coq_list(&m.contours, |c| coq_pts(&explicit(c).iter().map(|p| (p.x, p.y)).collect::<Vec<_>>()));
             let comps: Vec<String> = g.bases.iter().enumerate().map(|(j, b)| format!("({}, {})", coq_name(src, b), coq_aff(&m.xf[j], varies(g, j)))).collect();
-            format!("((Src {}), G {} [{}] {} {})", i, cs, comps.join("; "), coq_q(m.adv), coq_bool(g.export))
+            format!("((Src {}), G {} [{}] {} {})", i, cs, comps.join("; "), coq_q(m.adv), coq_bool(g.export || all_export))
         })
         .collect();
     format!("(font_of [{}])", gl.join("; "))
@@ -937,7 +937,9 @@ fn run_source(src: &Src, with_model: bool) -> Vec<Value> {
     let mut comparisons = 0usize;
     let mut seen_keys: std::collections::HashSet<String> = Default::default();
     // per master: (mask, IR glyph order, IR glyphs, some glyph lost contours)
-    let mut model_runs: Vec<Vec<(usize, String, String, bool)>> = vec![Vec::new(); nm];
+    let mut model_runs: Vec<Vec<(usize, String, String, bool)>> = vec![Vec::new(); 2 * nm];
+    // drawn contour counts per (all exported, option subset, glyph, master)
+    let mut drawn_counts: HashMap<(bool, usize, String, usize), usize> = HashMap::new();
     for all_export in [false, true] {
         if all_export && !has_nonexport {
             continue;
@@ -946,7 +948,7 @@ fn run_source(src: &Src, with_model: bool) -> Vec<Value> {
         let path = src.design(all_export).write(&sub);
         for mask in 0..16usize {
             let flags = flags_of(mask);
-            let ir_dir = if with_model && !all_export { Some(sub.join(format!("ir{mask}"))) } else { None };
+            let ir_dir = if with_model { Some(sub.join(format!("ir{mask}"))) } else { None };
             if let Some(d) = &ir_dir {
                 let _ = std::fs::create_dir_all(d);
             }
@@ -989,6 +991,7 @@ fn run_source(src: &Src, with_model: bool) -> Vec<Value> {
                     comparisons += 1;
                     let r = &refs[&(g.name.clone(), k)];
                     let d = &drawn[k];
+                    drawn_counts.insert((all_export, mask, g.name.clone(), k), d.contours.len());
                     // advance: ot_round of the source advance
                     let want = (g.m[k].adv + 0.5).floor();
                     if (d.advance as f64 - want).abs() > 1e-3 {
@@ -1014,8 +1017,15 @@ fn run_source(src: &Src, with_model: bool) -> Vec<Value> {
                                 let merged = d.contours.len() < r.len()
                                     && d.contours.iter().all(|c| exp.iter().any(|e| near(e, c)))
                                     && exp.iter().all(|e| d.contours.iter().any(|c| near(e, c)));
+                                // flattening never changes the number of contours: when the build without the flatten
+                                // option has the same (already reported) count and this glyph's flattened 2x2 leaves
+                                // the F2Dot14 range, the shapes cannot be told apart from the overflow class
+                                let same_as_unflattened = mask & 1 == 1 && drawn_counts.get(&(all_export, mask ^ 1, g.name.clone(), k)) == Some(&d.contours.len());
+                                let flat_only = flags.contains(Flags::FLATTEN_COMPONENTS) && !flags.contains(Flags::DECOMPOSE_COMPONENTS);
                                 if merged {
                                     ("decompose-merges-identical-component-instances", format!("{} contours, the source resolves to {} (the missing ones coincide with contours that are present)", d.contours.len(), r.len()))
+                                } else if same_as_unflattened && flat_only && composed_overflow(src, &g.name, k, &IDENT, 0, 12) {
+                                    ("flatten-composed-transform-exceeds-f2dot14", format!("{} contours as without flattening (the source resolves to {}), and the flattened glyph has a component whose composed 2x2 leaves [-2,2]", d.contours.len(), r.len()))
                                 } else {
                                     ("contour-count-differs-under-component-options", format!("{} contours, the source resolves to {}", d.contours.len(), r.len()))
                                 }
@@ -1067,7 +1077,7 @@ fn run_source(src: &Src, with_model: bool) -> Vec<Value> {
                     match read_ir(d, src, k) {
                         Ok(ir) => {
                             let (o, g) = coq_ir(src, &ir);
-                            model_runs[k].push((mask, o, g, lost[k]));
+                            model_runs[k + if all_export { nm } else { 0 }].push((mask, o, g, lost[k]));
                         }
                         Err(e) => {
                             if seen_keys.insert("ir".into()) {
@@ -1080,16 +1090,17 @@ fn run_source(src: &Src, with_model: bool) -> Vec<Value> {
         }
     }
     // model cases: one per master location, all option subsets that built
-    for k in 0..nm {
-        if model_runs[k].is_empty() {
+    for kk in 0..2 * nm {
+        if model_runs[kk].is_empty() {
             continue;
         }
+        let (k, all_export) = (kk % nm, kk >= nm);
         let all = coq_list(&src.glyphs, |g| coq_name(src, &g.name));
         let ord = coq_list(&src.order, |n| coq_name(src, n));
         let fl = |mask: usize| format!("(mkFlags {} {} {} {})", coq_bool(mask & 1 != 0), coq_bool(mask & 2 != 0), coq_bool(mask & 4 != 0), coq_bool(mask & 8 != 0));
         // option subsets that left the same IR share one expected value
         let mut groups: Vec<(Vec<usize>, &String, &String, bool)> = Vec::new();
-        for (mask, o, g, lost) in &model_runs[k] {
+        for (mask, o, g, lost) in &model_runs[kk] {
             match groups.iter_mut().find(|x| x.1 == o && x.2 == g && x.3 == *lost) {
                 Some(x) => x.0.push(*mask),
                 None => groups.push((vec![*mask], o, g, *lost)),
@@ -1099,15 +1110,15 @@ fn run_source(src: &Src, with_model: bool) -> Vec<Value> {
             .iter()
             .map(|(masks, o, g, lost)| format!("check_runs {FUEL} [{}] F all ord {} {} {}", masks.iter().map(|m| fl(*m)).collect::<Vec<_>>().join("; "), o, g, coq_bool(*lost)))
             .collect();
-        let coq = format!("let F := {} in let all := {} in let ord := {} in ({})", coq_font(src, k), all, ord, checks.join(") && ("));
-        let show = format!("let F := {} in let all := {} in let ord := {} in map (fun fl => show_run {FUEL} fl F all ord) [{}]", coq_font(src, k), all, ord,
-                           model_runs[k].iter().map(|r| fl(r.0)).collect::<Vec<_>>().join("; "));
-        let lossy = format!("let F := {} in let all := {} in let ord := {} in existsb (fun fl => lossy_run {FUEL} fl F all ord) [{}]", coq_font(src, k), all, ord,
+        let coq = format!("let F := {} in let all := {} in let ord := {} in ({})", coq_font(src, k, all_export), all, ord, checks.join(") && ("));
+        let show = format!("let F := {} in let all := {} in let ord := {} in map (fun fl => show_run {FUEL} fl F all ord) [{}]", coq_font(src, k, all_export), all, ord,
+                           model_runs[kk].iter().map(|r| fl(r.0)).collect::<Vec<_>>().join("; "));
+        let lossy = format!("let F := {} in let all := {} in let ord := {} in existsb (fun fl => lossy_run {FUEL} fl F all ord) [{}]", coq_font(src, k, all_export), all, ord,
                             (0..16).map(fl).collect::<Vec<_>>().join("; "));
         let maxdepth = src.glyphs.iter().map(|g| src.depth(&g.name)).max().unwrap_or(0);
         out.push(json!({"type":"case","kind":src.kind,"coq":coq,"show":show,"lossy_term":lossy,"nontrivial": maxdepth >= 1,
-                        "sig": format!("s{}m{}", src.id, k), "source_id": src.id, "master": k, "option_subsets": model_runs[k].len(),
-                        "impl_lost_contours": model_runs[k].iter().any(|r| r.3), "max_depth": maxdepth, "distinct_ir_outcomes": groups.len()}));
+                        "sig": format!("s{}m{}{}", src.id, k, if all_export { "x" } else { "" }), "all_exported": all_export, "source_id": src.id, "master": k, "option_subsets": model_runs[kk].len(),
+                        "impl_lost_contours": model_runs[kk].iter().any(|r| r.3), "max_depth": maxdepth, "distinct_ir_outcomes": groups.len()}));
     }
     out.push(json!({"type":"srcstat","builds":builds,"comparisons":comparisons,"stats":stats}));
     out
